@@ -1269,6 +1269,17 @@ func (w *c01World) concBatch() {
 		}
 		scripts = append(scripts, w.conc.script)
 	}
+	if w.scale {
+		// one more goroutine: RefreshRuntime of the hot quota (what PreFilter does under hierarchyUpdateLock.RLock while the
+		// informer handlers run): it rewrites AutoScaleMin / the runtime quota along the path, never a figure of the property
+		var sc []func()
+		for i := 0; i < 3; i++ {
+			w.h.Op("refresh %d", hot)
+			sc = append(sc, func() { w.gqm.RefreshRuntime(c01QName(hot)) })
+		}
+		scripts = append(scripts, sc)
+		w.h.Tag("conc:refresh-goroutine")
+	}
 	w.conc = nil
 	w.h.Op("conc 0")
 	lockstep, fresh := r.Chance(2, 3), r.Chance(1, 2)
@@ -1313,7 +1324,8 @@ func TestVerifC01(t *testing.T) {
 		restore := utilfeature.SetFeatureGateDuringTest(t, k8sfeature.DefaultFeatureGate, features.ElasticQuotaImmediateIgnoreTerminatingPod, w.gate)
 		w.gqm = NewGroupQuotaManager("tree1", false, nil, nil)
 		// every 5th case (chosen by idx, so the other cases are what they were): min-quota scaling on, as in the plugin's default
-		w.scale = idx%5 == 2
+		// (and every other concurrency case: RefreshRuntime then also runs concurrently with the pod handlers, see concBatch)
+		w.scale = idx%5 == 2 || idx%10 == 9
 		if w.scale {
 			w.gqm.setScaleMinQuotaEnabled(true)
 			h.Op("scale 1")
@@ -1346,7 +1358,7 @@ func TestVerifC01(t *testing.T) {
 				batchAt[r.Range(2, nops-1)] = true
 			}
 		}
-		if w.scale {
+		if idx%5 == 2 {
 			w.scaleScenario()
 		}
 		for i := 0; i < nops; i++ {
@@ -1377,6 +1389,7 @@ func TestVerifC01(t *testing.T) {
 		"K=2..6 distinct pods (new or existing, 2/3 on the deepest quota), per pod a script of 1-4 OnPodAdd / OnPodUpdate (resize, flip, bind, completion, terminating, quota move) / " +
 		"OnPodDelete / ReservePod / UnreservePod calls drawn beforehand, run by K goroutines released together (2/3 of the batches: also the i-th calls of all scripts released together) against the shared manager; one observation at quiescence, " +
 		"compared with the model's canonical sequential order (script of pod 1, pod 2, ...) and checked by the oracle and (every other batch) the fresh manager (fingerprint suffix @conc); <=16 pods there; " +
+		"every other concurrency case has min-quota scaling on, total / RefreshRuntime operations in between, and one more goroutine per batch that calls RefreshRuntime of the hot quota three times; " +
 		"every 5th case (index%5 == 2) runs with min-quota scaling ON (setScaleMinQuotaEnabled before any quota exists, the plugin's default; the fresh manager likewise): it starts with 2-3 siblings with min > 0 " +
 		"(3/4 non-lending, below the root or a fresh parent group), a cluster total first above then (one node gone) below their summed min in cpu / memory / both, RefreshRuntime of the siblings (AutoScaleMin scaled down) " +
 		"and 1-3 pod adds there (2/3 small: below the declared min), and gets a further total change around the summed min or a RefreshRuntime after every 5th random operation; " +
